@@ -23,7 +23,7 @@ def run(ctx):
                 raise vlib.Infra("sensitivity: the model of the pre-fix verifyProcessingBlocks no longer violates FinishNeverFails")
     # the last scenarios finish state sync between the rejection of a parent and of its child
     races = ctx.pick(4, 40)
-    fails, stats = S.record_and_validate(ctx, ["sync0", "syncahead"], ctx.pick(64, 940), ctx.pick(50, 70), "sync",
+    fails, stats = S.record_and_validate(ctx, ["sync0", "syncahead"], ctx.pick(52, 940), ctx.pick(45, 70), "sync",
                                          tail_kind="race", tail=races)
     if ctx.only is None:
         if not stats.get("ev_finishsync") or not stats.get("ev_startsync"):
